@@ -76,10 +76,12 @@ func (m okMarshaler) MarshalJSON() ([]byte, error) { return []byte(m.raw), nil }
 
 type errMarshaler struct{ msg string }
 
-// errAndMarshaler is an error value that also knows its JSON form.
+// errAndMarshaler is an error value that also knows its JSON form and its text form (the statements list error,
+// json.Marshaler and TextMarshaler as value kinds and do not rank them for a value that is several of them).
 type errAndMarshaler struct{ raw string }
 
 func (m errAndMarshaler) MarshalJSON() ([]byte, error) { return []byte(m.raw), nil }
+func (m errAndMarshaler) MarshalText() ([]byte, error) { return []byte("T:" + m.raw), nil }
 func (m errAndMarshaler) Error() string                { return "E:" + m.raw }
 
 func (m errMarshaler) MarshalJSON() ([]byte, error) { return nil, errors.New(m.msg) }
@@ -371,6 +373,26 @@ func genTime() *rapid.Generator[time.Time] {
 	})
 }
 
+// BoundaryInt64 draws integers at the seams of number formatting: a power of ten or of two, give or take one, with
+// either sign (where a digit count changes, where a table ends, where a fast path hands over).
+func BoundaryInt64() *rapid.Generator[int64] {
+	return rapid.Custom(func(t *rapid.T) int64 {
+		var v int64 = 1
+		if rapid.Bool().Draw(t, "powerOfTen") {
+			for i, k := 0, rapid.IntRange(0, 18).Draw(t, "exp10"); i < k; i++ {
+				v *= 10
+			}
+		} else {
+			v <<= uint(rapid.IntRange(0, 62).Draw(t, "exp2"))
+		}
+		v += int64(rapid.IntRange(-1, 1).Draw(t, "offBy"))
+		if rapid.Bool().Draw(t, "negative") {
+			v = -v
+		}
+		return v
+	})
+}
+
 type GenOpts struct {
 	TextKinds bool // include TextMarshaler kinds (C13)
 	MaxDepth  int
@@ -397,15 +419,16 @@ func genLeaf(o GenOpts) *rapid.Generator[Node] {
 			n.I = rapid.Int64Range(-5, 5).Draw(t, "i")
 			n.B = rapid.Bool().Draw(t, "b")
 		case KInt64:
-			n.I = rapid.OneOf(rapid.SampledFrom([]int64{0, 1, -1, math.MaxInt64, math.MinInt64, 1 << 53, -(1 << 53) - 1}), rapid.Int64()).Draw(t, "i")
+			n.I = rapid.OneOf(rapid.SampledFrom([]int64{0, 1, -1, math.MaxInt64, math.MinInt64, 1 << 53, -(1 << 53) - 1}), rapid.Int64(), BoundaryInt64()).Draw(t, "i")
 		case KUint64:
-			n.U = rapid.OneOf(rapid.SampledFrom([]uint64{0, 1, math.MaxUint64, 1 << 63, 1<<53 + 1}), rapid.Uint64()).Draw(t, "u")
+			n.U = rapid.OneOf(rapid.SampledFrom([]uint64{0, 1, math.MaxUint64, 1 << 63, 1<<53 + 1}), rapid.Uint64(),
+				rapid.Custom(func(t *rapid.T) uint64 { return uint64(BoundaryInt64().Draw(t, "b")) })).Draw(t, "u")
 		case KFloat:
 			n.F = rapid.OneOf(rapid.SampledFrom([]float64{0, math.Copysign(0, -1), 5e-324, 1e308, -1e308, math.NaN(), math.Inf(1), math.Inf(-1), 0.1, 1e21, 1e-7, 123456789}), rapid.Float64()).Draw(t, "f")
 		case KBool:
 			n.B = rapid.Bool().Draw(t, "b")
 		case KDuration:
-			n.I = rapid.OneOf(rapid.SampledFrom([]int64{0, 1, -1, int64(time.Second), int64(36 * time.Hour), math.MaxInt64, math.MinInt64}), rapid.Int64()).Draw(t, "d")
+			n.I = rapid.OneOf(rapid.SampledFrom([]int64{0, 1, -1, int64(time.Second), int64(36 * time.Hour), math.MaxInt64, math.MinInt64}), rapid.Int64(), BoundaryInt64()).Draw(t, "d")
 		case KTime:
 			n.T = genTime().Draw(t, "t")
 		case KMarshalOK, KErrMarshaler:
